@@ -323,6 +323,66 @@ func makeCaseTrap(c *core.Ctx, nRefs, L, nQueries int, trap bool) (*gen.RefCase,
 		}
 		c.Count("low_complexity_cases", 1)
 	}
+	if nRefs <= 100 && c.Rng.Intn(5) == 0 {
+		// rearranged amplicons: a query of 150-400 bases, a reference that is the same sequence with a
+		// block moved (circular permutation: it shares every 4-mer with the query, so it is the first
+		// candidate examined, yet lies far away), and in-order variants of the query at a range of
+		// distances around it. Whatever is assumed from the first candidate must not hide the others.
+		r := c.Rng
+		for g := 0; g < 1+r.Intn(3); g++ {
+			n := 150 + r.Intn(250)
+			q := gen.DNA(r, n)
+			cut := n/4 + 10 + r.Intn(n/2-20)
+			rc.Refs = append(rc.Refs, append(append([]byte{}, q[cut:]...), q[:cut]...))
+			rc.Fam = append(rc.Fam, -1)
+			// in-order variants of the query whose true distance lies just below that of the rearranged
+			// copy (substitutions are added until the full-matrix distance reaches the target)
+			moved := rc.Refs[len(rc.Refs)-1]
+			l0, a0 := ref.LCS(q, moved, ref.Compatible)
+			far := a0 - l0
+			perm := r.Perm(n)
+			backs := []int{1, 2 + r.Intn(3), 6 + r.Intn(6), 14 + r.Intn(10), 30 + r.Intn(20), far / 2}
+			backs = backs[:r.Intn(len(backs)+1)] // from "the rearranged copy alone" to "variants down to half its distance"
+			for _, back := range backs {
+				target := far - back
+				if target < 1 {
+					continue
+				}
+				lo, hi := 0, n // number of substituted positions
+				variant := func(m int) []byte {
+					v := append([]byte{}, q...)
+					for _, p := range perm[:m] {
+						v[p] = gen.ACGT[(strings.IndexByte(string(gen.ACGT), v[p])+1+int(perm[p])%3)%4]
+					}
+					return v
+				}
+				dist := func(m int) int {
+					l, a := ref.LCS(q, variant(m), ref.Compatible)
+					return a - l
+				}
+				for lo < hi { // smallest m with distance >= target
+					mid := (lo + hi) / 2
+					if dist(mid) >= target {
+						hi = mid
+					} else {
+						lo = mid + 1
+					}
+				}
+				if dist(lo) >= far {
+					continue
+				}
+				rc.Refs = append(rc.Refs, variant(lo))
+				rc.Fam = append(rc.Fam, -1)
+			}
+			at := r.Intn(len(rc.Queries))
+			rc.Queries[at], rc.QKind[at] = q, "rearranged"
+			if r.Intn(2) == 0 {
+				at = r.Intn(len(rc.Queries))
+				rc.Queries[at], rc.QKind[at] = gen.Mutate(r, q, r.Intn(4)), "rearranged"
+			}
+		}
+		c.Count("rearranged_cases", 1)
+	}
 	spec := gen.Taxonomy(c.Rng, 1+c.Rng.Intn(40))
 	node := gen.AssignTaxa(c.Rng, rc, spec)
 	self := -1
